@@ -71,6 +71,7 @@ def register(R):
     R.contract(f'{L}:random_file_extension', params=dict(num_digits=Int), returns=ExtT('str'), events=False)
 
     register_uploader_filters(R)
+    register_legacy_chunk(R)
     register_ranged_downloader(R)
     register_legacy_upload(R)
 
@@ -504,6 +505,74 @@ def register_legacy_front(R):
         len([e for e in c.trace if e.kind == 'loop']) == 1), ['C03']),
         **R.budget_clause(c, c.old.f(c.oldf('_config'), 'num_download_attempts'), ['C03'])}, 'Exception': only_propagates}
     cgo.loops = {0: LoopSpec(invariant=lambda l: {}, iteration_checks=go_iteration, local_types={'last_exception': OptT(ExtT('exception'))})}
+
+
+def register_legacy_chunk(R):
+    """The legacy ReadFileChunk (s3transfer/__init__.py): window reads and progress accounting of legacy upload bodies
+    (C01, C09): bytes read while reporting is off are never reported, and never taken back either."""
+    from pyvc.values import to_int_term
+    from .spec import b2z
+    LRFC = f'{L}:ReadFileChunk'
+    R.add_fields(LRFC, _fileobj=ExtT('fileobj_or_name'), _start_byte=Int, _size=Int, _amount_read=Int,
+                 _callback=OptT(ExtT('legacy_cb')), _callback_enabled=Bool)
+
+    def setup(eng, st, args, self_val):
+        h = st.obj(self_val)
+        g = R.stream_state(st, h.fields['_fileobj'])
+        start, size, ar = h.fields['_start_byte'], h.fields['_size'], h.fields['_amount_read']
+        # class invariant (sequential use by one request thread): the window lies inside the file, the file position is
+        # start + amount_read, the position stays inside the window
+        st.assume(z3.And(start >= 0, size >= 0, ar >= 0, ar <= size, start + size <= g['len'], g['pos'] == start + ar))
+        st.assume(g['full_reads'])       # a regular file opened by from_filename
+        st.ghost['lrfc_pos0'] = g['pos']
+
+    def reporting(c):
+        return z3.And(z3.Not(c.oldf('_callback').is_none), b2z(c.oldf('_callback_enabled')))
+
+    def cb_events(c):
+        return [e for e in c.trace if e.kind == 'ext' and e.name == 'legacy_cb.()']
+
+    def read_post(c):
+        d = c.result
+        start, size, ar0 = c.oldf('_start_byte'), c.oldf('_size'), c.oldf('_amount_read')
+        k = to_int_term(d.hi) - to_int_term(d.lo)
+        left = size - ar0
+        amt = c.a_amount
+        want = z3.If(amt.is_none, left, z3.If(amt.val < left, amt.val, left))
+        cbs = cb_events(c)
+        return {
+            'returns_the_next_bytes_of_the_window': z3.And(B(d.base == 'src'), to_int_term(d.lo) == start + ar0, k == want),
+            'position_advances_by_what_was_returned': c.newf('_amount_read') == ar0 + k,
+            'reported_iff_reporting_is_on_and_then_exactly_the_bytes_returned': (z3.If(
+                reporting(c), z3.And(B(len(cbs) == 1), (to_int_term(cbs[0].args[0]) == k) if len(cbs) == 1 else B(False)), B(len(cbs) == 0)), ['C09']),
+        }
+
+    def seek_post(c):
+        ar0 = c.oldf('_amount_read')
+        cbs = cb_events(c)
+        sk = [e for e in c.trace if e.kind == 'ext' and e.name == 'fileobj_or_name.seek']
+        return {
+            'file_positioned_at_window_start_plus_where': B(len(sk) == 1) if not sk else to_int_term(sk[0].args[0]) == c.oldf('_start_byte') + c.a_where,
+            'position_is_where': c.newf('_amount_read') == c.a_where,
+            # progress is taken back (negative amount) exactly when reporting is on; with reporting off nothing was reported
+            # for the bytes read meanwhile, so nothing may be taken back
+            'rewind_reported_iff_reporting_is_on': (z3.If(
+                reporting(c), z3.And(B(len(cbs) == 1), (to_int_term(cbs[0].args[0]) == c.a_where - ar0) if len(cbs) == 1 else B(False)), B(len(cbs) == 0)), ['C09']),
+        }
+
+    R.contract(f'{LRFC}.read', props=['C01', 'C09'], params=dict(amount=OptT(Int)), top_level=True,
+               requires=lambda c: [z3.Or(c.a_amount.is_none, c.a_amount.val >= 0)], setup=setup, ensures=read_post,
+               raises={'Exception': only_propagates})
+    R.contract(f'{LRFC}.seek', props=['C01', 'C09'], params=dict(where=Int), top_level=True,
+               requires=lambda c: [c.a_where >= 0, c.a_where <= c.oldf('_size')], setup=setup, ensures=seek_post,
+               raises={'Exception': only_propagates})
+    for nm, val in (('enable_callback', True), ('disable_callback', False)):
+        R.contract(f'{LRFC}.{nm}', props=['C09'], params={}, top_level=True, raises={},
+                   ensures=lambda c, val=val: {'reporting_switched_' + ('on' if val else 'off'): b2z(c.newf('_callback_enabled')) == B(val),
+                                               'position_untouched': c.newf('_amount_read') == c.oldf('_amount_read'),
+                                               'nothing_reported': B(len(cb_events(c)) == 0)})
+    R.contract(f'{LRFC}.tell', props=['C01'], params={}, returns=Int, top_level=True, ensures=lambda c: {'tell_is_position_in_window': c.result == c.oldf('_amount_read')})
+    R.contract(f'{LRFC}.__len__', props=['C01'], params={}, returns=Int, top_level=True, ensures=lambda c: {'length_is_window_size': c.result == c.oldf('_size')})
 
 
 def register_ranged_downloader(R):
